@@ -8,12 +8,14 @@
 package fw
 
 import (
+	"bytes"
 	"encoding/binary"
 	"encoding/json"
 	"flag"
 	"fmt"
 	"hash/fnv"
 	"os"
+	"os/exec"
 	"runtime"
 	"runtime/debug"
 	"runtime/metrics"
@@ -338,7 +340,35 @@ func (c *Ctx) watchdog() {
 }
 
 // Main is the worker entry point.
+// Cold-start cases: functions that must be the first thing a fresh process does with the
+// library (lazily built tables, caches and registries are still untouched).  RegisterCold names
+// one; RunCold starts this worker binary again with VERIF_COLD=<name> and an argument, and
+// returns what the function printed.  A crash of the child is reported in err with its stderr.
+var coldFns = map[string]func(arg string) string{}
+
+func RegisterCold(name string, f func(arg string) string) { coldFns[name] = f }
+
+func RunCold(name, arg string) (string, error) {
+	cmd := exec.Command(os.Args[0])
+	cmd.Env = append(os.Environ(), "VERIF_COLD="+name, "VERIF_COLD_ARG="+arg)
+	var stdout, stderr bytes.Buffer
+	cmd.Stdout, cmd.Stderr = &stdout, &stderr
+	if err := cmd.Run(); err != nil {
+		return stdout.String(), fmt.Errorf("%v: %s", err, stderr.String())
+	}
+	return stdout.String(), nil
+}
+
 func Main() {
+	if name := os.Getenv("VERIF_COLD"); name != "" {
+		f, ok := coldFns[name]
+		if !ok {
+			fmt.Fprintln(os.Stderr, "unknown cold case", name)
+			os.Exit(4)
+		}
+		fmt.Print(f(os.Getenv("VERIF_COLD_ARG")))
+		return
+	}
 	prop := flag.String("prop", "", "property id")
 	tier := flag.String("tier", "quick", "quick|thorough")
 	seed := flag.Uint64("seed", 1, "VERIF_SEED")
